@@ -168,6 +168,20 @@ impl Plan {
         }
         "?".into()
     }
+
+    /// `kind_of` for a (bridge, delegate) pair: when names are damaged (T2) the template is still recognisable by the
+    /// descriptor of the method together with the descriptor of one of the methods it calls.
+    fn kind_of_pair(&self, b: &MRef, d: &MRef) -> String {
+        let k = self.kind_of(b);
+        if k != "?" && k != "filler" {
+            return k;
+        }
+        let hits: Vec<&MethodSpec> = self.main.classes.iter().flat_map(|c| c.methods.iter()).filter(|m| !m.kind.is_empty() && m.desc == b.2 && m.calls.iter().any(|c| c.desc == d.2)).collect();
+        if hits.len() == 1 {
+            return hits[0].kind.clone();
+        }
+        k
+    }
 }
 
 // ------------------------------------------------------------------------------------------------
@@ -467,7 +481,7 @@ fn cmp_pairs(tier: &str, class: &str, p: &Plan, real: &[(MRef, MRef)], want: &[r
     }
     for (b, d) in &r {
         if !w.contains_key(b) {
-            out.push(Violation::new(tier, class, format!("pairs.extra[{}]", p.kind_of(b)), format!("{} -> {} detected as a bridge, the property's predicate says no", show(b), show(d))));
+            out.push(Violation::new(tier, class, format!("pairs.extra[{}]", p.kind_of_pair(b, d)), format!("{} -> {} detected as a bridge, the property's predicate says no", show(b), show(d))));
         }
     }
 }
